@@ -488,6 +488,27 @@ func (s *clusterState) ApplyDelta(delta delta) {
 	}
 }
 
+// ApplyKnownDelta applies the entries in the delta for nodes we already know
+// about.
+//
+// A delta received in a packet answers a digest we sent, so it only contains
+// nodes we knew about when we sent that digest, and only the entries with a
+// version above the digest version. Therefore if we've since removed a node
+// (such as it expired) the delta doesn't contain the nodes full state, so it
+// must be discarded rather than re-adding the node with only part of its
+// state.
+func (s *clusterState) ApplyKnownDelta(delta delta) {
+	s.mu.Lock()
+	defer s.mu.Unlock()
+
+	for _, entry := range delta {
+		if _, ok := s.nodes[entry.ID]; !ok {
+			continue
+		}
+		s.applyDeltaEntry(entry)
+	}
+}
+
 func (s *clusterState) deltaEntry(nodeID string, fromVersion uint64) deltaEntry {
 	state := s.nodes[nodeID]
 
